@@ -293,6 +293,27 @@ def run_sequence(env, sink, cash, cfg, seq):
             diff = [i for i, (a, b) in enumerate(zip(now_, fz_)) if a != b]
             msgs.append("track-record entry %d changed after it was recorded (fields %s): %r -> %r" % (j, diff, [fz_[i] for i in diff][:1], [now_[i] for i in diff][:1]))
             break
+    # a COPY of the record (copy.deepcopy, or pickle as TrackRecord.save / load do) must report what the live record reports
+    if frozen and not msgs:
+        import copy
+        import pickle
+        for how, clone in (("copy.deepcopy", lambda: copy.deepcopy(tr)), ("pickle round-trip", lambda: pickle.loads(pickle.dumps(tr)))):
+            try:
+                tc_ = clone()
+                for j, fz_ in enumerate(frozen):
+                    e = tc_[j]
+                    now_ = (e.time, float(e.context_pre.nlv), float(e.context_post.nlv), float(e.profit_on_idle_cash),
+                            tuple((str(t.contract), float(t.quantity), float(t.acq_price), float(t.cost_of_commissions)) for t in e.trades))
+                    was_ = (fz_[0], fz_[1], fz_[2], fz_[3], fz_[7])
+                    if now_ != was_:
+                        msgs.append("a %s of the track record reports %r for entry %d, the live record %r" % (how, now_, j, was_))
+                        break
+                if not msgs and len(tc_) == len(tr) and len(tr):
+                    a_, b_ = tc_.transaction_costs(cumulative=False), tr.transaction_costs(cumulative=False)
+                    if not np.allclose(a_.values.astype(float), b_.values.astype(float), rtol=1e-12, atol=0, equal_nan=True):
+                        msgs.append("transaction_costs() of a %s of the track record differs from the live record's" % how)
+            except Exception as ex:
+                msgs.append("a %s of the track record raised %r" % (how, ex))
     try:
         f_pre = tr.net_liquidation_value(before_rebalancing=True)
         f_post = tr.net_liquidation_value(before_rebalancing=False)
